@@ -61,6 +61,9 @@ class Harness:
         self.work = None
         # in every other history the second constructed block has one frame more than the first, so
         # that an item leaking from one block into the other has the wrong length there
+        # force-platform data channels are unsigned 16-bit: in every third history the channel numbers
+        # sit at the top of that range
+        self.chan_base = 65533 if (kind == "FPData" and seed % 3 == 2) else 0
         self.share_ctor = False   # directed histories: always hand the previous constructor's list over again
         self.skew = (seed // 4) % 2 == 1
         self.frames = {}      # slot -> frame count of the block now in it
@@ -202,7 +205,7 @@ class Harness:
         if k == "FPCal":
             return [int(c) for c, _ in b.platforms]
         if k == "FPData":
-            return [int(c) for c, _ in b]
+            return [int(c) - self.chan_base for c, _ in b]
         return []
 
     def encode_bytes(self, b):
@@ -340,7 +343,7 @@ class Harness:
                 elif k in ("Data3D", "Force"):
                     b.add_track(x)
                 elif k in ("FPCal", "FPData"):
-                    b.add_platform(x) if c == -1 else b.add_platform(x, c)
+                    b.add_platform(x) if c == -1 else b.add_platform(x, c + self.chan_base)
                 elif k == "Events":
                     b.events.append(x)
                 else:
@@ -418,11 +421,16 @@ class Harness:
                     val.append(1 if fresh_str(self.labels[key]) in b else 0)
                 elif what == "badkey":
                     self.tagc += 1
-                    keys = [1.5, None, (0,), b"", slice(0, 2)]
-                    items = self.items_of(b)
-                    if items:
-                        keys.append(items[0])      # an item object is not a key either
-                    b[keys[self.tagc % len(keys)]]
+                    if self.tagc % 3 == 0:
+                        # membership with a key that is neither a label nor an item
+                        keys = [5, None, 1.5, b"a", (0,)]
+                        keys[self.tagc % len(keys)] in b
+                    else:
+                        keys = [1.5, None, (0,), b"", slice(0, 2)]
+                        items = self.items_of(b)
+                        if items:
+                            keys.append(items[0])      # an item object is not a key either
+                        b[keys[self.tagc % len(keys)]]
         elif op == "edit":
             pos = lab["pos"]
             o["pos"] = pos
@@ -472,6 +480,17 @@ class Harness:
                 lst.append(self.new_item(1))
                 if len(lst) > 1:
                     del lst[0]
+        elif op == "assign_self":
+            self.tagc += 1
+            form = self.tagc % 3
+
+            def fn():
+                if form == 0:
+                    b.tracks = b.tracks
+                elif form == 1:
+                    b.tracks = (t for t in b.tracks)
+                else:
+                    b.tracks = iter(list(b))
         elif op == "assign_from":
             j = lab["j"]
             o["j"] = j
@@ -502,6 +521,7 @@ class Harness:
                     dec = type(b)._build(io.BytesIO(raw), b.format.value)
                     h = Harness(self.kind, 0)
                     h.labels = self.labels
+                    h.chan_base = self.chan_base
                     ch = self.chans_of(b) if self.kind == "EMG" else h.chans_of(dec)
                     labs = [h.label_id(x) for x in h.items_of(dec)]
                     for c, l in zip(ch, labs):
@@ -571,6 +591,8 @@ def parse_label(lab):
         return dict(op="edit", i=i, pos=_ints(rest)[0])
     if name == "Poke":
         return dict(op="poke", i=i)
+    if name == "AssignSelf":
+        return dict(op="assign_self", i=i)
     if name == "AssignFrom":
         return dict(op="assign_from", i=i, j=_ints(rest)[0])
     raise common.Machinery(f"unparsed label {lab!r}")
